@@ -48,9 +48,8 @@ def main():
         print('demo with the change: exit %d' % d1.returncode)
         result['confirmed'] = d0.returncode == 0 and d1.returncode != 0 and tline.startswith('686 passed')
         result['ran'].append('demo unchanged exit %d; tests "%s"; demo changed exit %d' % (d0.returncode, tline, d1.returncode))
-        shutil.copytree(os.path.join(HERE, 'evidence'), os.path.join(evbak, 'evidence'))
         for pid in props:
-            c = run([os.path.join(HERE, 'check.py'), pid, '--tier', tier], cwd=HERE, env=dict(os.environ, ARMULATOR_REPO=dst), timeout=7200)
+            c = run([os.path.join(HERE, 'check.py'), pid, '--tier', tier], cwd=HERE, env=dict(os.environ, ARMULATOR_REPO=dst, VERIF_EVIDENCE_DIR=evbak + '/scratch-evidence'), timeout=7200)
             lines = [l for l in c.stdout.splitlines() if l.startswith(('VIOLATION', 'INCONCLUSIVE'))]
             print('%s exit=%d  %s' % (pid, c.returncode, '; '.join(l[:230] for l in lines[:3]) or c.stdout.strip()[-160:]))
             (result['caught_by'] if c.returncode == 1 else result['missed_by']).append(pid)
@@ -60,9 +59,6 @@ def main():
                 print(c.stderr[-1500:])
     finally:
         shutil.rmtree(dst, ignore_errors=True)
-        if os.path.isdir(os.path.join(evbak, 'evidence')):
-            shutil.rmtree(os.path.join(HERE, 'evidence'), ignore_errors=True)
-            shutil.copytree(os.path.join(evbak, 'evidence'), os.path.join(HERE, 'evidence'))
         shutil.rmtree(evbak, ignore_errors=True)
     if '--keep' in flags and result['confirmed']:
         out = os.path.join(HERE, 'seeded', name)
